@@ -885,6 +885,8 @@ struct Case {
                 return false;
             }
             if (st.contains("var")) vars[st["var"].toString()] = found["id"].toString();
+            // $ID in the next send refers to the element that was awaited, not to whatever IQ happened to arrive last
+            if (auto *cn2 = c.current(); cn2 && !found["id"].toString().isEmpty()) cn2->lastId = found["id"].toString();
             return true;
         }
         if (op == u"await_accept") {
